@@ -135,8 +135,17 @@ def one_to_one(ctx) -> None:
     wells_var = getattr(rets[0].elts[0], "id", None)
     tips_var = getattr(rets[0].elts[4], "id", None)
     rets_nodes = fv.return_nodes()
-    for what, names in (("tips", {tips_var, "tips"}), ("wells", {wells_var, "wells"})):
-        ok, weak = _strict_guard(fv, names - {None})
+    # the order that counts is that of the *returned* (converted / flattened) sequences: a check on the raw arguments
+    # compares numbers 1-8 with Tip mask values, resp. an unflattened selection
+    for what, names in (("tips", {tips_var}), ("wells", {wells_var})):
+        if None in names:
+            ctx.rep.inconclusive(rule, f"{v.qualname}/ascending-{what}", f"the returned {what} are not a local list", where=w)
+            continue
+        ok, weak = _strict_guard(fv, names)
+        if not ok and not weak:
+            raw_ok, _ = _strict_guard(fv, {what})
+            if raw_ok:
+                weak = f"the ascending-order check is applied to the raw `{what}` argument, not to the converted `{next(iter(names))}` that is returned and encoded"
         ctx.rep.check(ok, rule, f"{v.qualname}/ascending-{what}", f"{what} that are not strictly ascending raise ValueError",
                       (weak or f"no guard rejects {what} that are not in strictly ascending order") + f": the i-th volume slot (tip order), the i-th selected well (row order) and the tracking pair ({what}[i], volumes[i]) can disagree", where=w)
     # wells flattened column-major; lengths agree
